@@ -11,20 +11,32 @@ pub struct PropDef {
 
 pub mod c01;
 pub mod c02;
+pub mod c03;
+pub mod c04;
+pub mod c05;
 pub mod c06;
 pub mod c07;
 pub mod c23;
 pub mod c24;
+pub mod c25;
+pub mod c26;
 pub mod c35;
+pub mod c36;
 
 pub fn all() -> Vec<PropDef> {
     vec![
         PropDef { id: "C01", run: c01::run, replay: c01::replay },
         PropDef { id: "C02", run: c02::run, replay: c02::replay },
+        PropDef { id: "C03", run: c03::run, replay: c03::replay },
+        PropDef { id: "C04", run: c04::run, replay: c04::replay },
+        PropDef { id: "C05", run: c05::run, replay: c05::replay },
         PropDef { id: "C06", run: c06::run, replay: c06::replay },
         PropDef { id: "C07", run: c07::run, replay: c07::replay },
         PropDef { id: "C23", run: c23::run, replay: c23::replay },
         PropDef { id: "C24", run: c24::run, replay: c24::replay },
+        PropDef { id: "C25", run: c25::run, replay: c25::replay },
+        PropDef { id: "C26", run: c26::run, replay: c26::replay },
         PropDef { id: "C35", run: c35::run, replay: c35::replay },
+        PropDef { id: "C36", run: c36::run, replay: c36::replay },
     ]
 }
